@@ -305,10 +305,15 @@ func c15RoundTrip(t *c15Tables, it c15Item) (ev c15Eval) {
 			ev.fails = append(ev.fails, c15Fail{"C15/roundtrip/raw/file_extension-differs", fmt.Sprintf("file_extension %q came back as %q", t.exts[it.ExtID], r.FileExtension)})
 		}
 	}
-	for i := range ev.fails {
-		ev.fails[i].detail = fmt.Sprintf("valid content hash %s -> IRI %q -> %s", t.text(it), iri, ev.fails[i].detail)
-	}
 	return ev
+}
+
+// c15FailText is the full human text of a round-trip failure.
+func c15FailText(t *c15Tables, it c15Item, iri string, f c15Fail) string {
+	if iri == "" {
+		return fmt.Sprintf("valid content hash %s: %s", t.text(it), f.detail)
+	}
+	return fmt.Sprintf("valid content hash %s -> IRI %q -> %s", t.text(it), iri, f.detail)
 }
 
 // c15DiffFields names the fields in which two items differ (for collision kinds).
@@ -371,11 +376,9 @@ func newC15Collector() *c15Collector {
 	return &c15Collector{best: map[string]*c19Found{}, counts: map[string]int64{}}
 }
 
-func (c *c15Collector) add(kind, where string, order int64, detail string, replay map[string]interface{}) {
-	c.addN(kind, where, order, 1, detail, replay)
-}
-
-func (c *c15Collector) addN(kind, where string, order, n int64, detail string, replay map[string]interface{}) {
+// add records n occurrences; mk is only called if this is the new simplest
+// (lowest order) example of its kind.
+func (c *c15Collector) add(kind, where string, order, n int64, mk func() (string, map[string]interface{})) {
 	c.mu.Lock()
 	defer c.mu.Unlock()
 	c.counts[kind] += n
@@ -383,6 +386,7 @@ func (c *c15Collector) addN(kind, where string, order, n int64, detail string, r
 	if b, ok := c.best[kind]; ok && b.order <= ord {
 		return
 	}
+	detail, replay := mk()
 	c.best[kind] = &c19Found{kind: kind, where: where, order: ord, detail: detail, replay: replay}
 }
 
@@ -390,8 +394,8 @@ func (c *c15Collector) addN(kind, where string, order, n int64, detail string, r
 // entry point
 
 const (
-	c15ThoroughRawDigestLimit = uint32(1) << 24 // thorough: raw digest_algorithm swept over [0, 2^24]
-	c15ThoroughGraphLimit     = uint32(1) << 20 // thorough: each graph field swept over [0, 2^20]
+	c15ThoroughRawDigestLimit = uint32(1) << 26 // thorough: raw digest_algorithm swept over [0, 2^26]
+	c15ThoroughGraphLimit     = uint32(1) << 22 // thorough: each graph field swept over [0, 2^22]
 )
 
 type c15IRIKey [20]byte
@@ -478,7 +482,10 @@ func C15(tier string) int {
 				fc["round_trip_failed"]++
 			}
 			for _, f := range ev.fails {
-				col.add(f.kind, fam.Name, order, f.detail, map[string]interface{}{"content_hash": t.describe(it), "iri": ev.iri})
+				f, it, iri := f, it, ev.iri
+				col.add(f.kind, fam.Name, order, 1, func() (string, map[string]interface{}) {
+					return c15FailText(t, it, iri, f), map[string]interface{}{"content_hash": t.describe(it), "iri": iri}
+				})
 			}
 			if ev.iri == "" {
 				continue
@@ -492,9 +499,11 @@ func C15(tier string) int {
 					if piri, err := pch.ToIRI(); err == nil && piri == ev.iri {
 						fc["collisions"]++
 						kind := "C15/iri-collision/" + c15DiffFields(t, prev, canon)
-						col.add(kind, fam.Name, order,
-							fmt.Sprintf("two different valid content hashes map to the same IRI %q: %s and %s", ev.iri, t.text(prev), t.text(it)),
-							map[string]interface{}{"iri": ev.iri, "content_hash_a": t.describe(prev), "content_hash_b": t.describe(it)})
+						prev, it, iri := prev, it, ev.iri
+						col.add(kind, fam.Name, order, 1, func() (string, map[string]interface{}) {
+							return fmt.Sprintf("two different valid content hashes map to the same IRI %q: %s and %s", iri, t.text(prev), t.text(it)),
+								map[string]interface{}{"iri": iri, "content_hash_a": t.describe(prev), "content_hash_b": t.describe(it)}
+						})
 					}
 				}
 			} else {
@@ -581,8 +590,8 @@ func C15(tier string) int {
 func c15Sweep(t *c15Tables, col *c15Collector, table map[c15IRIKey]c15Item, name string, from, limit uint32, mk func(uint32) c15Item, order *int64, nw int) map[string]interface{} {
 	type blockRes struct {
 		enumerated, valid, ok, failed, collisions int64
-		firstFail                               map[string]*c19Found // by kind, lowest v in block
-		counts                                  map[string]int64
+		firstFail                                 map[string]*c19Found // by kind, lowest v in block
+		counts                                    map[string]int64
 	}
 	const blockSize = 1 << 16
 	var blocks [][2]uint32
@@ -616,9 +625,10 @@ func c15Sweep(t *c15Tables, col *c15Collector, table map[c15IRIKey]c15Item, name
 					}
 					br.valid++
 					ord := base + int64(v-uint64(from)) + 1
-					note := func(kind, detail string, replay map[string]interface{}) {
+					note := func(kind string, mk func() (string, map[string]interface{})) {
 						br.counts[kind]++
 						if _, ok := br.firstFail[kind]; !ok {
+							detail, replay := mk()
 							br.firstFail[kind] = &c19Found{kind: kind, where: "sweep/" + name, order: fmt.Sprintf("%020d", ord), detail: detail, replay: replay}
 						}
 					}
@@ -628,7 +638,10 @@ func c15Sweep(t *c15Tables, col *c15Collector, table map[c15IRIKey]c15Item, name
 						br.failed++
 					}
 					for _, f := range ev.fails {
-						note(f.kind, f.detail, map[string]interface{}{"content_hash": t.describe(it), "iri": ev.iri})
+						f := f
+						note(f.kind, func() (string, map[string]interface{}) {
+							return c15FailText(t, it, ev.iri, f), map[string]interface{}{"content_hash": t.describe(it), "iri": ev.iri}
+						})
 					}
 					if ev.iri == "" {
 						continue
@@ -637,9 +650,10 @@ func c15Sweep(t *c15Tables, col *c15Collector, table map[c15IRIKey]c15Item, name
 						pch := t.build(prev)
 						if piri, err := pch.ToIRI(); err == nil && piri == ev.iri {
 							br.collisions++
-							note("C15/iri-collision/"+c15DiffFields(t, prev, c15Canon(it)),
-								fmt.Sprintf("two different valid content hashes map to the same IRI %q: %s and %s", ev.iri, t.text(prev), t.text(it)),
-								map[string]interface{}{"iri": ev.iri, "content_hash_a": t.describe(prev), "content_hash_b": t.describe(it)})
+							note("C15/iri-collision/"+c15DiffFields(t, prev, c15Canon(it)), func() (string, map[string]interface{}) {
+								return fmt.Sprintf("two different valid content hashes map to the same IRI %q: %s and %s", ev.iri, t.text(prev), t.text(it)),
+									map[string]interface{}{"iri": ev.iri, "content_hash_a": t.describe(prev), "content_hash_b": t.describe(it)}
+							})
 						}
 					}
 				}
@@ -659,7 +673,7 @@ func c15Sweep(t *c15Tables, col *c15Collector, table map[c15IRIKey]c15Item, name
 			f := br.firstFail[k]
 			var ord int64
 			fmt.Sscanf(f.order, "%d", &ord)
-			col.addN(k, f.where, ord, n, f.detail, f.replay)
+			col.add(k, f.where, ord, n, func() (string, map[string]interface{}) { return f.detail, f.replay })
 		}
 	}
 	*order = base + int64(limit-from) + 1
